@@ -17,7 +17,10 @@ CONSTANTS MaxFeatures,     \* optional features per program
           MaxSolves,
           Classes,         \* set of class indices used (see harness/pepsolve.py class_table)
           DevF3, DevF4, DevF5, DevSkip,
-          Wrappers         \* {"cvxpy"} or {"cvxpy", "mosek"}
+          Wrappers,        \* {"cvxpy"} or {"cvxpy", "mosek"}
+          Plain,           \* TRUE: solves use the default options (dual, no heuristic, silent); edits stay free
+          Allowed          \* kinds of optional features that may be added: subset of AllFeatures
+AllFeatures == {"steps", "comp", "cons", "lmi", "metrics", "part", "lmimetric", "unsent"}
 LmiSize(code) == CASE code = "L1" -> 1 [] code = "S3" -> 3 [] OTHER -> 2
 ConsCodes == {"pi", "pe", "pg", "pm", "pd", "fi", "ci", "dup", "dupf"}   \* dup: the SAME constraint object declared twice
 LmiCodes == {"S2", "D2", "L1", "N2", "S3", "F2"}
@@ -34,14 +37,14 @@ CanAdd == phase = "build" /\ NFeat < MaxFeatures
 InSeq(s, x) == \E i \in 1..Len(s) : s[i] = x
 Feature ==
   /\ CanAdd
-  /\ \/ prog.steps = "g" /\ prog' = [prog EXCEPT !.steps = "gg"]
-     \/ prog.comp = 0 /\ prog.cls \in {1, 2, 3, 4, 11, 12} /\ prog' = [prog EXCEPT !.comp = 1]
-     \/ \E c \in ConsCodes : ~InSeq(prog.ucons, c) /\ (c = "ci" => prog.comp = 1) /\ prog' = [prog EXCEPT !.ucons = Append(@, c)]
-     \/ \E c \in LmiCodes : Len(prog.lmis) < 2 /\ prog' = [prog EXCEPT !.lmis = Append(@, c)]
-     \/ prog.metrics = 1 /\ prog' = [prog EXCEPT !.metrics = 2]
-     \/ prog.part = 0 /\ prog' = [prog EXCEPT !.part = 1]
-     \/ prog.lmimetric = 0 /\ Len(prog.lmis) > 0 /\ prog.lmis[1] # "L1" /\ prog' = [prog EXCEPT !.lmimetric = 1]
-     \/ prog.unsent_lmi = 0 /\ prog' = [prog EXCEPT !.unsent_lmi = 1]
+  /\ \/ "steps" \in Allowed /\ prog.steps = "g" /\ prog' = [prog EXCEPT !.steps = "gg"]
+     \/ "comp" \in Allowed /\ prog.comp = 0 /\ prog.cls \in {1, 2, 3, 4, 11, 12} /\ prog' = [prog EXCEPT !.comp = 1]
+     \/ "cons" \in Allowed /\ \E c \in ConsCodes : ~InSeq(prog.ucons, c) /\ (c = "ci" => prog.comp = 1) /\ prog' = [prog EXCEPT !.ucons = Append(@, c)]
+     \/ "lmi" \in Allowed /\ \E c \in LmiCodes : Len(prog.lmis) < 2 /\ prog' = [prog EXCEPT !.lmis = Append(@, c)]
+     \/ "metrics" \in Allowed /\ prog.metrics = 1 /\ prog' = [prog EXCEPT !.metrics = 2]
+     \/ "part" \in Allowed /\ prog.part = 0 /\ prog' = [prog EXCEPT !.part = 1]
+     \/ "lmimetric" \in Allowed /\ prog.lmimetric = 0 /\ Len(prog.lmis) > 0 /\ prog.lmis[1] # "L1" /\ prog' = [prog EXCEPT !.lmimetric = 1]
+     \/ "unsent" \in Allowed /\ prog.unsent_lmi = 0 /\ prog' = [prog EXCEPT !.unsent_lmi = 1]
   /\ UNCHANGED <<solves, phase, epoch, sent, native, dualpos, cache, nClassLmi, nPartRows, hist>>
 \* ---- the list sent to the wrapper, abstractly: a sequence of [src, k ("sc" | "lmi"), n]
 Rep(x, n) == [i \in 1..n |-> x]
@@ -87,6 +90,7 @@ Solve ==
        /\ (o.edit = "tsample" => prog.cls = 8 /\ \A i \in 1..Len(solves) : solves[i].edit # "tsample")   \* sample the adjoint once more
        /\ (o.edit = "block" => prog.part = 1 /\ \A i \in 1..Len(solves) : solves[i].edit # "block")   \* decompose one more point
        /\ (o.verbose = 1 => o.heur = "none" /\ o.mode = "dual")
+       /\ (Plain => o.mode = "dual" /\ o.heur = "none" /\ o.verbose = 0)
        /\ LET sv == Append(solves, o)
               ok == ~Infeasible(sv)
               cl == IF DevF3 THEN nClassLmi + ClassLmis(prog.cls) ELSE ClassLmis(prog.cls)
